@@ -39,6 +39,8 @@ FnItem(body)            == [k |-> "fn", body |-> body]
 FnParam(site, body)     == [k |-> "fnparam", site |-> site, body |-> body]
 ArrowExpr(item)         == [k |-> "arrow", item |-> item]              \* () => item   (item: site / assign / arrow)
 ArrowBlock(body)        == [k |-> "arrowblock", body |-> body]
+ArrowP(site, item)      == [k |-> "arrowp", site |-> site, item |-> item]          \* (p = site) => item
+ArrowBlockP(site, body) == [k |-> "arrowblockp", site |-> site, body |-> body]     \* (p = site) => { body }
 Block(body)             == [k |-> "block", body |-> body]
 ClassField(site)        == [k |-> "classfield", site |-> site]
 UserDecl(name)          == [k |-> "userdecl", name |-> name]
@@ -64,9 +66,16 @@ Lin(it, path) ==      \* `path` ends with the item's own index in its list
     [] it.k = "fn"         -> <<Op("enter_stmts", path, <<>>)>> \o LinSeq(it.body, path, 1) \o <<Op("exit_stmts", path, <<>>)>>
     [] it.k = "fnparam"    -> SiteOps(it.site, Append(here, 1000 + path[Len(path)]))
                               \o <<Op("enter_stmts", path, <<>>)>> \o LinSeq(it.body, path, 1) \o <<Op("exit_stmts", path, <<>>)>>
-    [] it.k = "arrow"      -> <<Op("enter_arrow", path, [block |-> FALSE])>> \o Lin(it.item, Append(path, 1))
+    [] it.k \in {"arrow", "arrowp"} ->
+                              <<Op("enter_arrow", path, [block |-> FALSE])>>
+                              \o (IF it.k = "arrowp" THEN SiteOps(it.site, Append(here, 1000 + path[Len(path)])) ELSE <<>>)
+                              \o <<Op("params_done", path, [block |-> FALSE])>>
+                              \o Lin(it.item, Append(path, 1))
                               \o <<Op("exit_arrow", path, [block |-> FALSE])>>
-    [] it.k = "arrowblock" -> <<Op("enter_arrow", path, [block |-> TRUE])>>
+    [] it.k \in {"arrowblock", "arrowblockp"} ->
+                              <<Op("enter_arrow", path, [block |-> TRUE])>>
+                              \o (IF it.k = "arrowblockp" THEN SiteOps(it.site, Append(here, 1000 + path[Len(path)])) ELSE <<>>)
+                              \o <<Op("params_done", path, [block |-> TRUE])>>
                               \o <<Op("enter_stmts", Append(path, 0), <<>>)>> \o LinSeq(it.body, Append(path, 0), 1)
                               \o <<Op("exit_stmts", Append(path, 0), <<>>)>>
                               \o <<Op("exit_arrow", path, [block |-> TRUE])>>
@@ -104,6 +113,7 @@ Log(e) == trace' = Append(trace, e)
 
 Scoped == "Dev_DrainIntoNextScope" \notin Devs       \* repaired behaviour: pending lists are per scope
 FreshLeft == "Dev_StaleAssignmentLeft" \notin Devs   \* repaired behaviour: target scoped to the right-hand side
+ParamsOuter == "Dev_ArrowParamTempInBody" \notin Devs \* repaired behaviour: what an arrow's parameters generate belongs to the enclosing scope
 
 (* ------------------------------------------------------------- actions *)
 (* visit_mut_stmts, before the children: the enclosing scope's lists are set aside *)
@@ -128,9 +138,22 @@ ExitStmts ==
 
 EnterArrow ==
   /\ ~Done /\ Cur.k = "enter_arrow"
-  /\ frames' = IF Scoped THEN Append(frames, [Frame0 EXCEPT !.counter = IF Cur.block THEN Top.counter ELSE 1]) ELSE frames
+  /\ frames' = IF Scoped THEN Append(frames, [Frame0 EXCEPT !.counter = IF Cur.block \/ ParamsOuter THEN Top.counter ELSE 1]) ELSE frames
   /\ Log(Ev("enter_arrow", [block |-> Cur.block]))
   /\ Advance /\ UNCHANGED <<mod, eos, ops, left, leftStack, helper, imports, decls, uses>>
+
+(* visit_mut_arrow_expr, between the parameters and the body: the temporaries of parameter defaults are handed to  *)
+(* the enclosing scope (the parameter scope cannot see the body's declarations); an expression body then numbers  *)
+(* its own temporaries from 1.  Silent (no hook event).  Before the repair nothing happened here.                 *)
+ParamsDone ==
+  /\ ~Done /\ Cur.k = "params_done"
+  /\ frames' = IF Scoped /\ ParamsOuter
+               THEN LET below == frames[Len(frames) - 1]
+                        rest  == SubSeq(frames, 1, Len(frames) - 2)
+                    IN rest \o <<[below EXCEPT !.vars = @ \o Top.vars, !.consts = @ \o Top.consts, !.counter = Top.counter],
+                                 [Frame0 EXCEPT !.counter = IF Cur.block THEN Top.counter ELSE 1]>>
+               ELSE frames
+  /\ Advance /\ UNCHANGED <<mod, eos, ops, left, leftStack, helper, imports, decls, uses, trace>>
 
 (* visit_mut_arrow_expr, after the children: an expression body becomes { decls; return e };   *)
 (* what is still pending at a block-bodied arrow goes back to the enclosing scope               *)
@@ -215,7 +238,7 @@ DrainModule ==
   /\ frames' = SetTop(Frame0)
   /\ Advance /\ UNCHANGED <<mod, eos, ops, left, leftStack, helper, imports, uses>>
 
-Next == EnterStmts \/ ExitStmts \/ EnterArrow \/ ExitArrow \/ AssignEnter \/ AssignExit \/ SiteStep \/ DrainModule
+Next == EnterStmts \/ ExitStmts \/ EnterArrow \/ ParamsDone \/ ExitArrow \/ AssignEnter \/ AssignExit \/ SiteStep \/ DrainModule
 
 InitWith(Modules) ==
   /\ mod \in Modules /\ eos \in EosChoices
